@@ -359,8 +359,15 @@ Section Spec.
     | [] => false
     end.
 
+  (* the tokens handed out to call [id] itself, by a token request of ANY of its phases: the one
+     made before its first attempt (a refresh token and a recorded challenge were at hand) as
+     well as the one made in answer to the challenge *)
+  Definition call_issues (id : nat) (h : hist) : list issue :=
+    filter (fun i => Nat.eqb (i_id i) id) (issues h).
+
   (* P3  at most two attempts against the registry per call, none after the call returned;
-     a call whose second attempt carried a token acquired for it and was answered 401 returns
+     a call whose second attempt carried a token issued to this very call - on either path:
+     before its first attempt or in answer to the challenge - and was answered 401 returns
      403 DENIED, and only such a call does *)
   Definition evP3 (e : event) (h : hist) : bool :=
     match e with
@@ -371,7 +378,7 @@ Section Spec.
              (count_reg id h =? 2)%nat
              && match last_reg id h with
                 | Some (ABearer t, RHttp st _ _) =>
-                    (st =? 401)%N && existsb (fun i => beqb (i_tok i) t) (phase_issues id (tl (before_phase id h)))
+                    (st =? 401)%N && existsb (fun i => beqb (i_tok i) t) (call_issues id h)
                 | _ => false
                 end in
            match res with
